@@ -409,3 +409,36 @@ def content_tables(R, ctx, rid):
             if not (name and str(name).endswith("BLOCK_ITEM_%s_REF_NUMBER" % g[0].upper())):
                 bad.append((g[0], name))
     R.ob(rid, fn, "ref-number-names", not bad and n >= 9, "each kind returns the constant of its own name (%d kinds)" % n if not bad else "kind/constant mismatch: %s" % bad)
+
+
+
+def map_api(R, ctx, rid):
+    """Map::len / clear / Branch::remove: live entries only, and the current entry is what gets deleted."""
+    Y = ctx.yrs
+    R.rule(rid, "R-GUARD/R-PROV map API over the key table: Map::len counts an entry only under !is_deleted(); Map::clear hands every "
+                "entry of the table to TransactionMut::delete; Branch::remove(key) deletes exactly the entry `map.get(key)` returned, "
+                "unconditionally once it exists, and reports its last value only if it was live")
+    fn = Y.fn("yrs::types::map::Map::len")
+    v = FnView(fn)
+    incs = [(i, st) for i, j, st in fn.stmts() if st["rv"].get("bin") in ("Add", "AddWithOverflow") and mir_root(fn, st["rv"]["b"]) == ("const", 1)
+            and fn.cfg().in_loop(i)]
+    ok = bool(incs) and all(any(lit_call(l, "yrs::block::Item::is_deleted", False) for l in v.guards(i)) for i, st in incs)
+    R.ob(rid, fn, "len-counts-live", ok, "len += 1 only for entries that are not deleted (%d increment(s))" % len(incs))
+    fn = Y.fn("yrs::types::map::Map::clear")
+    v = FnView(fn)
+    dels = fn.calls_to("yrs::transaction::TransactionMut::delete")
+    ok = len(dels) == 1 and fn.cfg().in_loop(dels[0].bb) and term_has_call(v.arg(dels[0], 1, 10), "re:hash_map::Iter.*::next$|re:Iterator>?::next$") and \
+        not [l for l in v.guards(dels[0].bb) if not (simp(l.term)[0] == "call" and re.search(r"::next$", simp(l.term)[1]))]
+    R.ob(rid, fn, "clear-deletes-all", ok, "every entry the iteration yields is deleted, under no further condition")
+    fn = Y.fn("yrs::branch::Branch::remove")
+    v = FnView(fn)
+    dels = fn.calls_to("yrs::transaction::TransactionMut::delete")
+    ok = False
+    why = "%d delete call(s)" % len(dels)
+    if len(dels) == 1:
+        a = simp_deep(v.arg(dels[0], 1, 10))
+        same = term_has_call(a, "re:HashMap(<.*>)?::get$") and term_has_field(a, "Branch.map")
+        cond = [l.desc for l in v.guards(dels[0].bb) if not (term_has_call(l.term, "re:HashMap(<.*>)?::get$") and not term_has_call(l.term, "re:is_deleted$"))]
+        ok = same and not cond
+        why = "deletes the entry map.get(key) returned: %s; extra conditions: %s" % (same, cond[:2])
+    R.ob(rid, fn, "remove-deletes-current", ok, why)
